@@ -837,6 +837,27 @@ class MeshRegion:
         self.dx.centre = (self.psi_vals[2::2] - self.psi_vals[:-2:2])[:, numpy.newaxis]
         self.dx.ylow = (self.psi_vals[2::2] - self.psi_vals[:-2:2])[:, numpy.newaxis]
 
+        # At the x-faces (xlow and corners locations) dx is the distance in psi between
+        # the cell centres either side of the face, as used by DDX(). Where there is no
+        # neighbouring region DDX() takes a one-sided difference over dx/2, so use twice
+        # the distance between the boundary face and the nearest cell centre there.
+        dx_faces = numpy.zeros(self.nx + 1)
+        dx_faces[1:-1] = self.psi_vals[3::2] - self.psi_vals[1:-2:2]
+        dx_faces[0] = self.psi_vals[1] - self.psi_vals[0]
+        inner = self.getNeighbour("inner")
+        if inner is not None:
+            dx_faces[0] += inner.psi_vals[-1] - inner.psi_vals[-2]
+        else:
+            dx_faces[0] *= 2.0
+        dx_faces[-1] = self.psi_vals[-1] - self.psi_vals[-2]
+        outer = self.getNeighbour("outer")
+        if outer is not None:
+            dx_faces[-1] += outer.psi_vals[1] - outer.psi_vals[0]
+        else:
+            dx_faces[-1] *= 2.0
+        self.dx.xlow = dx_faces[:, numpy.newaxis]
+        self.dx.corners = dx_faces[:, numpy.newaxis]
+
         if self.psi_vals[0] > self.psi_vals[-1]:
             # x-coordinate is -psixy so x always increases radially across grid
             self.bpsign = -1.0
